@@ -18,7 +18,7 @@ INFO = {
                "and builds the function through FunctionDefinitions::create on every successful path, and create "
                "rejects too few / too many arguments and is the only caller of a factory; (e) get_processor rejects "
                "output options that do not belong to the style, and the header-less csv error is raised before "
-               "anything is written (C15-ROW instances). Every stage hands start() on at once, so the sink's header-less csv error is raised before any input is read. For each of the registered functions the declared minimum number of arguments is enough for its implementation to produce a value and no index beyond the declared maximum is read; a path expression that stops in the middle of a step after a complete step is rejected.",
+               "anything is written (C15-ROW instances). Every stage hands start() on at once, so the sink's header-less csv error is raised before any input is read. For each of the registered functions the declared minimum number of arguments is enough for its implementation to produce a value and no index beyond the declared maximum is read; a path expression that stops in the middle of a step after a complete step is rejected. No option parser returns Ok unless the reader has reported the end of the option text (--sort-by included).",
     "not_decided": "Completeness of clap's own validation, the wording of messages, and the full grammar of the "
                    "accepted suffixes (--select's `=name`, --sort-by's direction words are validated by value logic "
                    "that unit tests sample).",
@@ -296,6 +296,53 @@ def trailing(rep, lib):
             r.ok(short + "/end-of-text", "accepted", rg[0].where(), nontrivial=False)
         else:
             r.bad(short + "/end-of-text", "a complete expression followed by nothing is not accepted", rg[0].where())
+
+
+def eof_observed(rep, lib):
+    """No option text is accepted before its end was seen."""
+    r = rep.rule("C18-EOF-OBSERVED", "each option parser that reads an expression (--filter, --split-by, --group-by, "
+                 "--set, --sort-by) returns Ok only after the reader has reported the end of the option text: with a "
+                 "reader that never reports the end (peek/next always answer some byte), no successful return is "
+                 "reachable - otherwise text after the expression (after the sort direction) is silently ignored",
+                 floor=5, analysis="A5 partial evaluation of each from_str, following local helpers under the same "
+                                   "reader model (a helper that can only loop ends the path)")
+    for short, name in NO_SUFFIX + [("Sorter", "<sorters::Sorter as std::str::FromStr>::from_str")]:
+        b = lib.bodies.get(name)
+        if b is None:
+            r.missing(name)
+            continue
+        rg = [c for c in b.calls if (c.name or "").endswith("selection::read_getter")]
+        if len(rg) != 1:
+            r.missing("%s: one read_getter call" % short)
+            continue
+
+        def model(c, av, envv, pe):
+            n = c.name or ""
+            if n.endswith("selection::read_getter"):
+                return (True, ("adt", 0, (None,)))
+            if is_reader_peek(c) or is_reader_next(c):
+                return (True, OK(some(None)))
+            if n.endswith("Reader::<R>::eat_whitespace"):
+                return (True, OK(("adt", 0, ())))
+            return None
+        inline = {n for n in lib.bodies if not n.endswith("selection::read_getter")
+                  and not n.endswith("Reader::<R>::peek") and not n.endswith("Reader::<R>::next")
+                  and not n.endswith("Reader::<R>::eat_whitespace") and n != name}
+        pe = PE(b, model, eq_ok=common.derived_eq_ok(lib), max_states=60000, inline=inline, crate=lib)
+        pe.model_in_closures = True
+        try:
+            res = pe.run()
+        except RuntimeError as e:
+            r.bad(short + "/end-observed", "not evaluated: %s" % e, rg[0].where())
+            continue
+        oks = [(bb, v) for bb, v in res.returns if not (v is not None and v[0] == "adt" and v[1] == 1)]
+        if oks:
+            r.bad(short + "/end-observed", "the option can be accepted although the reader never reported the end of "
+                  "its text: whatever follows is ignored", rg[0].where(),
+                  witness="return block bb%d of %s" % (oks[0][0], b.name))
+        else:
+            r.ok(short + "/end-observed", "no successful return without the end of the text", rg[0].where())
+    return r
 
 
 # ------------------------------------------------------------------ (c) inspect before consume (typestate)
@@ -652,6 +699,7 @@ def run(ctx, rep):
     arity(rep, ctx)
     arity_use(rep, ctx)
     extract_truncated(rep, ctx)
+    eof_observed(rep, lib)
     style_options(rep, lib)
     # header-less csv: error before any write (shared with C15)
     PR.text_rows(rep, lib)
